@@ -186,7 +186,9 @@ fn subset_simple_glyph(g: &SimpleGlyph, plan: &Plan) -> Vec<u8> {
     let Some(num_coords) = g.end_pts_of_contours().last() else {
         return out;
     };
-    let num_coords = num_coords.get() + 1;
+    let Some(num_coords) = num_coords.get().checked_add(1) else {
+        return out;
+    };
     let glyph_data = g.glyph_data();
     let i = trim_simple_glyph_padding(glyph_data, num_coords);
     if i == 0 {
